@@ -304,7 +304,9 @@ fn mutate(ver: Ver, ch: &mut Choices, frame: &mut Vec<u8>, pkt: &Pkt) -> String 
     let v5 = ver == Ver::V5;
     let hdr = rc::fixed_header(frame).ok().flatten();
     let (first, rem, hl) = hdr.unwrap_or((frame[0], 0, 2.min(frame.len())));
-    match ch.choose(13) {
+    // (MQTT 5 packets that carry once-only properties get a property mutation more often than the uniform draw)
+    let m = if v5 && matches!(pkt, Pkt::Subscribe(_) | Pkt::Connect(_) | Pkt::ConnAck(_) | Pkt::Publish(_)) && ch.chance(1, 6) { 8 } else { ch.choose(13) };
+    match m {
         12 => {
             // the body cut after k bytes with a Remaining Length that says exactly k: a frame that is
             // consistent on the outside and too short on the inside, at every possible length
@@ -391,7 +393,7 @@ fn mutate(ver: Ver, ch: &mut Choices, frame: &mut Vec<u8>, pkt: &Pkt) -> String 
         }
         8 if v5 => {
             // unknown property id / duplicate once-only property / unknown reason code
-            let m = match ch.choose(3) {
+            let m = match ch.weighted(&[1, 2, 1]) {
                 0 => {
                     let mut p = pkt.clone();
                     add_prop(&mut p, (0x7e, PropVal::Byte(1)));
@@ -400,14 +402,33 @@ fn mutate(ver: Ver, ch: &mut Choices, frame: &mut Vec<u8>, pkt: &Pkt) -> String 
                 }
                 1 => {
                     let mut p = pkt.clone();
-                    let dup = match &p {
-                        Pkt::Publish(_) => (1u8, PropVal::Byte(1)),
-                        Pkt::Connect(_) => (17u8, PropVal::U32(5)),
-                        Pkt::ConnAck(_) => (33u8, PropVal::U16(3)),
-                        _ => (31u8, PropVal::Str("r".into())),
+                    // (which property, and whether either occurrence carries the value 0 - "absent" and "zero"
+                    // must not be confused by the once-only guard)
+                    let (z1, z2) = (ch.chance(1, 3), ch.chance(1, 3));
+                    let val16 = |z: bool, x: u16| PropVal::U16(if z { 0 } else { x });
+                    let val32 = |z: bool, x: u32| PropVal::U32(if z { 0 } else { x });
+                    let k = ch.choose(3);
+                    let (d1, d2) = match &p {
+                        Pkt::Publish(_) => match k {
+                            0 => ((1u8, PropVal::Byte(if z1 { 0 } else { 1 })), (1u8, PropVal::Byte(if z2 { 0 } else { 1 }))),
+                            1 => ((35u8, val16(z1, 3)), (35u8, val16(z2, 4))),
+                            _ => ((2u8, val32(z1, 7)), (2u8, val32(z2, 8))),
+                        },
+                        Pkt::Connect(_) => match k {
+                            0 => ((17u8, val32(z1, 5)), (17u8, val32(z2, 6))),
+                            1 => ((33u8, val16(z1, 3)), (33u8, val16(z2, 4))),
+                            _ => ((39u8, val32(z1, 900)), (39u8, val32(z2, 901))),
+                        },
+                        Pkt::ConnAck(_) => match k {
+                            0 => ((33u8, val16(z1, 3)), (33u8, val16(z2, 4))),
+                            1 => ((34u8, val16(z1, 3)), (34u8, val16(z2, 4))),
+                            _ => ((39u8, val32(z1, 900)), (39u8, val32(z2, 901))),
+                        },
+                        Pkt::Subscribe(_) => ((11u8, PropVal::VarInt(if z1 { 0 } else { 5 })), (11u8, PropVal::VarInt(if z2 { 0 } else { 6 }))),
+                        _ => ((31u8, PropVal::Str("r".into())), (31u8, PropVal::Str("r".into()))),
                     };
-                    add_prop(&mut p, dup.clone());
-                    add_prop(&mut p, dup);
+                    add_prop(&mut p, d1);
+                    add_prop(&mut p, d2);
                     *frame = rc::encode(ver, &p);
                     "once-only property twice"
                 }
